@@ -262,11 +262,18 @@ type Env struct {
 
 // NewEnv builds the real cheque store, address book and traffic service for
 // the node whose chain key is selfKey, over a fresh in-memory state store.
-func NewEnv(selfKey *ecdsa.PrivateKey) *Env {
+func NewEnv(selfKey *ecdsa.PrivateKey) *Env { return NewEnvWith(selfKey, nil) }
+
+// NewEnvWith is NewEnv with the state store passed through wrap (e.g. a gate
+// that controls the order of store accesses) before anything uses it.
+func NewEnvWith(selfKey *ecdsa.PrivateKey, wrap func(storage.StateStorer) storage.StateStorer) *Env {
 	lg := logging.New(ioutil.Discard, 0)
 	st, err := leveldb.NewInMemoryStateStore(lg)
 	if err != nil {
 		panic(err)
+	}
+	if wrap != nil {
+		st = wrap(st)
 	}
 	e := &Env{Logger: lg, Store: st, SelfKey: selfKey, Self: AddrOf(selfKey), Chain: NewChain(), Cash: &Cashout{Status: 1},
 		Proto: &Protocol{}, P2P: &P2P{}}
